@@ -217,14 +217,16 @@ fn low_cfg(width: u8, hint_near_end: bool, name: &str) -> Cfg {
 pub fn specs(tier: &str) -> Vec<ExpSpec> {
     let th = is_thorough(tier);
     let mut v = Vec::new();
-    let cfgs = vec![
-        vol::tiny_with(FatType::Fat12, 12, 16),
-        low_cfg(16, false, "b16-low"),
-        low_cfg(32, false, "b32-low"),
-        low_cfg(32, true, "b32-low-hint-near-end"),
-    ];
+    let mut cfgs = vec![vol::tiny_with(FatType::Fat12, 12, 16), low_cfg(16, false, "b16-low"), low_cfg(32, false, "b32-low")];
+    if th {
+        // (after the prefix's first allocation the hint is back at the start: in the quick tier the wrapping scan is
+        // covered by b32-low-hint-near-end-fresh below)
+        cfgs.push(low_cfg(32, true, "b32-low-hint-near-end"));
+    }
     for cfg in cfgs {
-        v.push(ExpSpec::new(cfg, alphabet(512), if th { 3 } else { 2 }).with_prefix(prefix(512)));
+        // (quick tier: FAT16 shares everything but its table routines with FAT12 - one call after the prefix there)
+        let d = if th { 3 } else if cfg.name == "b16-low" { 1 } else { 2 };
+        v.push(ExpSpec::new(cfg, alphabet(512), d).with_prefix(prefix(512)));
     }
     let r = DirRef::Root;
     // the allocation scan of the FAULTED call wraps around: the session's first allocation with the hint near the end
